@@ -725,10 +725,24 @@ func (c *Client) receipts(ctx context.Context, url string, bm blockmap, start, l
 			return fmt.Errorf("rpc=%s %w", tag, resps[i].Error)
 		}
 	}
+	if uint64(len(resps)) != limit {
+		const tag = "eth_getBlockReceipts: %d results for %d requests"
+		return fmt.Errorf(tag, len(resps), limit)
+	}
 	for i := range resps {
+		if resps[i].Result == nil {
+			const tag = "eth_getBlockReceipts missing result for block: %d"
+			return fmt.Errorf(tag, start+uint64(i))
+		}
 		if len(resps[i].Result) == 0 {
 			slog.ErrorContext(ctx, "no rpc error but empty result")
 			continue
+		}
+		for j := range resps[i].Result {
+			if n := uint64(resps[i].Result[j].BlockNum); n != start+uint64(i) {
+				const tag = "eth_getBlockReceipts receipt of another block. requested=%d got=%d"
+				return fmt.Errorf(tag, start+uint64(i), n)
+			}
 		}
 		blockNum := uint64(resps[i].Result[0].BlockNum)
 		if blockNum < start || blockNum > start+limit {
